@@ -4,6 +4,7 @@ import (
 	"fmt"
 	"sort"
 	"strings"
+	"time"
 
 	"pgregory.net/rapid"
 )
@@ -22,6 +23,8 @@ type RunCfg struct {
 	Procs    int      `json:"procs"`              // GOMAXPROCS of the child
 	Seed     int64    `json:"seed,omitempty"`     // VERIF_SCHED_SEED (hook H1); 0 = not set
 	Patterns []string `json:"patterns,omitempty"` // default ./...
+
+	limit time.Duration // time limit of the run (0: default of the binary); not part of the replay
 }
 
 func (r RunCfg) String() string {
